@@ -416,10 +416,11 @@ CHECKS = {
             "level_note": "Each goroutine uses its own native handles (the documented usage); the database/sql pool is shared, as database/sql intends.",
         },
         "rule": ("plan = GOMAXPROCS in {1,2,4,8,16} x 2-16 workers x 1-8 operations each, operation kinds drawn from 16 kinds, files from 3 fixed ones (5 / 60 / 700 rows; page sizes 512 / 1024 / 4096; the second one in journal_mode=PERSIST, i.e. with a non-empty journal next to it) and the plan's fresh file (25 rows, keyword case pattern of 24 generated bits). "
-                 "Non-trivial = at least two goroutines use the same file. Distinct = fingerprint of the plan."),
+                 "Non-trivial = at least two goroutines use the same file. Distinct = fingerprint of the plan. "
+                 "Open storm (no race detector, results only): 8-32 goroutines x 200-800 rounds of open / read all rows / close, each on its own one of 16 files that keep a zeroed PERSIST journal (every open and every read transaction opens and closes a second file), every second goroutine through a hard link; every round must give what the file gives when read alone - what is shared here is the process' descriptor table, not Go memory. Non-trivial = at least 8 goroutines on at least 4 procs."),
         "assumptions": ["the Go race detector sees the accesses of the interleavings that actually happen"],
         "min_nontrivial": {"quick": 60, "thorough": 1500},
-        "required_classes": ["procs=1", "procs=16", "same-file=true", "yield=true", "workers<=16", "fresh-state-shared=true", "op:select-probed"],
+        "required_classes": ["procs=1", "procs=16", "same-file=true", "yield=true", "workers<=16", "fresh-state-shared=true", "op:select-probed", "storm:open-read-close-rounds"],
         "timeout": {"quick": 500, "thorough": 2400},
         "jobs": [
             job("concurrent", "c20", ["TestC20Concurrent"], 40, 500, 3, 8, race=True, shrinktime="5s"),
